@@ -153,13 +153,19 @@ func getRandUint32IPv4(ipNet *net.IPNet) (uint32, error) {
 
 	mask := ipNet.Mask
 	ones, bits := mask.Size()
-	hosts := uint32(1 << uint32(bits-ones))
+	hostBits := bits - ones
+	if hostBits < 0 || hostBits > 32 {
+		return 0, errors.New("Failed to get random IPv4 as uint32 from the given range")
+	}
 
-	ip, err := randomInt(ipUint32, ipUint32+hosts)
+	// The number of addresses is counted in 64 bits: a network with 32 host bits (0.0.0.0/0, or
+	// ::ffff:0.0.0.0/96) has 2^32 of them, which wraps to 0 in a uint32 and made rand.Int panic.
+	hosts := new(big.Int).Lsh(big.NewInt(1), uint(hostBits))
+	offset, err := rand.Int(rand.Reader, hosts)
 	if err != nil {
 		return 0, errors.New("Failed to get random IPv4 as uint32 from the given range")
 	}
-	return ip, nil
+	return ipUint32 + uint32(offset.Uint64()), nil
 }
 
 // helper function to get random integers within a range
